@@ -64,12 +64,16 @@ CLAIMED = {
          "defined), in every argument mode, for arbitrary (also partial, non-ground) terms, any search kind, fuel and number of steps, every answer the "
          "engine delivers satisfies, under every valuation solving the answer, the inductive relation (c = a with b "
          "appended; x is an element of l; out is l without the first x; elements pairwise different) - through a general theorem that everything the engine delivers is derivable in a declarative "
-         "big-step semantics of goals. BOUNDED completeness + exactness: for every list over {1,2} (length <= 3/4) the engine model, "
+         "big-step semantics of goals. UNBOUNDED completeness of append, member, member1, rember, distinct and permute-as-defined (RelComplete, LibComplete): whenever a valuation solves the "
+         "state the call starts from and the values of the arguments under it are in the relation (any mode, arbitrary terms, whatever else the "
+         "state holds), the call delivers after finitely many steps an answer solved by a valuation that agrees with it on every variable that "
+         "existed before the call - so with soundness the solutions of the delivered answers are exactly the relation. "
+         "BOUNDED exactness (answer sets and counts): for every list over {1,2} (length <= 3/4) the engine model, "
          "evaluated inside Coq (forallb by vm_compute, lifted), gives exactly the answers of the Vec-based definition for append (both "
          "directions), member, member1, rember, distinct, cons/first/rest/empty. Beyond that scope all argument modes are compared with "
          "Vec-based definitions on the implementation. permute is refuted (known finding, pinned by test_permute_1).",
-         "6/C24", "Coq proof: unbounded soundness of append/member via the declarative semantics + exhaustive evaluation over a stated finite scope + all-modes instance oracle",
-         "Completeness is proved only over the stated finite scope; rember/member1/distinct (which use !=) have bounded theorems only."),
+         "6/C24", "Coq proof: unbounded soundness of all six relations via the declarative semantics, unbounded completeness of all six through relation calls + exhaustive evaluation over a stated finite scope + all-modes instance oracle",
+         "Answer multiplicities (member1 \"exactly once\") are proved only over the stated finite scope; the translator rejects relation functions with Rust code around the macro body."),
  "C16": ("Proved for WHOLE PROGRAMS (FDProg.fd_delivered_sound): for all relation definitions and goals whose written domains are well-formed, "
          "all search strategies and fuel, every valuation that solves an answer state Solver::next delivers (before reification) satisfies "
          "the logical reading of the program - every posted ltefd/plusfd/minusfd/timesfd/diseqfd/distinctfd/CLP(Z) constraint as its integer "
